@@ -59,10 +59,10 @@ ASSUMPTIONS = [
     "the process locale is UTF-8 (LC_ALL=C.UTF-8 set by run_check.py)",
 ]
 BOUND = {
-    "quick": "rows 1..3; quick alphabets (f8 4, i8 4, str 3 + 11 special strings in frames of <= 2 rows, D 3, us 3, ...); "
+    "quick": "rows 1..3; quick alphabets (f8 4, i8 4, str 3 + 16 special strings in frames of <= 2 rows, D 3, us 3, ...); "
              "all column pairs of 2-row representatives; 5 formats x 4 suffixes x (csv: 4 sep x 2 header x 3 encodings; json: 3 encodings); "
              "ListOfDicts lists of 1..2 items (csv 1..3) x pickle/json/csv x the same configurations",
-    "thorough": "rows 1..3; thorough alphabets (f8 9, i8 6, str 5 + 18 special strings in frames of <= 3 rows, D 6, us 4/5, ...); "
+    "thorough": "rows 1..3; thorough alphabets (f8 9, i8 6, str 5 + 27 special strings in frames of <= 3 rows, D 6, us 4/5, ...); "
                 "same configurations; ListOfDicts lists of 1..3 items",
 }
 TIME_CAP = {"quick": 300, "thorough": 3000}
@@ -103,9 +103,11 @@ ALPHA = {
 US_BINARY_EXTRA = ["0001-01-01T00:00:00"]   # outside the ns range: binary formats only
 
 SPECIALS = {
-    "quick": ["x,y", "x;y", "x\ty", "x|y", 'q"r', "l1\nl2", "l1\r\nl2", "日本", "é", " ", LONG],
-    "thorough": ["x,y", "x;y", "x\ty", "x|y", 'q"r', "l1\nl2", "l1\r\nl2", "日本", "é", " ", LONG,
-                 '"', " a ", "'", "b\\s", "#c", "\U0001F600", ",", "\n"],
+    "quick": ["x,y", "x;y", "x\ty", "x|y", 'q"r', "l1\nl2", "l1\r\nl2", "日本", "é", " ", LONG,
+              "e\u0301", " a ", "\ufeffx", "x\u2028y", "\u00a0"],
+    "thorough": ["x,y", "x;y", "x\ty", "x|y", 'q"r', "l1\nl2", "l1\r\nl2", "日本", "é", " ", LONG,
+                 '"', " a ", "'", "b\\s", "#c", "\U0001F600", ",", "\n",
+                 "e\u0301", "\ufeffx", "x\u2028y", "\u00a0", "x\x85y", "\t", "A", "ａ"],
 }
 
 KINDS = {
